@@ -478,6 +478,50 @@ pub fn multibyte_names_worker(_tier: &str, k: usize, n: usize, ctx: &mut Ctx) {
   crate::clear_current_case();
 }
 
+/// The intermediate text is the original text shifted right (added indentation), so an inner
+/// segment's generated column differs from its original column while the text still matches the
+/// recorded content: the reported column is "inner original column + offset into the inner
+/// segment", not the outer column. Every outer segment position x every placement of one or two
+/// inner segments x indentation 1..=2.
+pub fn shifted_identity_worker(_tier: &str, k: usize, n: usize, ctx: &mut Ctx) {
+  let gen = "uvw";
+  let content = "abcdef";
+  let (gpos, _) = model::positions(gen);
+  let mut st = Striper::new(k, n);
+  for indent in 1..=2u32 {
+    let original = format!("{}{}", " ".repeat(indent as usize), content);
+    let ncols = original.chars().count() as u32;
+    let okinds: Vec<Option<O4>> = (0..ncols).map(|c| Some((0, 1, c, None))).chain(std::iter::once(None)).collect();
+    // inner maps: one segment at the start of the shifted text; two segments; a segment in the middle only
+    let inners: Vec<Vec<Seg>> = vec![
+      vec![Seg { gl: 1, gc: indent, orig: Some((0, 1, 0, None)) }],
+      vec![Seg { gl: 1, gc: indent, orig: Some((0, 1, 0, None)) }, Seg { gl: 1, gc: indent + 3, orig: Some((0, 1, 3, None)) }],
+      vec![Seg { gl: 1, gc: indent + 2, orig: Some((0, 1, 2, Some(0))) }],
+      vec![Seg { gl: 1, gc: 0, orig: None }, Seg { gl: 1, gc: indent + 1, orig: Some((0, 1, 1, None)) }],
+    ];
+    for osegs in trees::seg_lists(&gpos, &okinds, 2) {
+      if osegs.is_empty() || !st.mine() {
+        continue;
+      }
+      for isegs in &inners {
+        for with_content in [true, false] {
+          let mut im = MapSpec::new(isegs.clone(), &["y0"], None, &["in0"]);
+          if with_content {
+            im.contents = Some(vec![content.to_string()]);
+          }
+          let om = MapSpec::new(osegs.clone(), &[INNER_NAME], None, &["zz"]);
+          let t = Term::Sms(Box::new(SmsSpec { value: gen.to_string(), name: INNER_NAME.to_string(), map: om, original_source: Some(original.clone()), inner: Some(im), remove: false }));
+          crate::set_current_case(&t);
+          ctx.states += 1;
+          ctx.count("shifted_identity_cases");
+          c09_case(ctx, &t);
+        }
+      }
+    }
+  }
+  crate::clear_current_case();
+}
+
 /// Every subset of the character positions of a 2 x 6 original text as the inner map's segment
 /// set (each segment with its own original location), against every ordered pair of outer
 /// segments pointing anywhere into it: all relative shapes of two consecutive inner lookups
